@@ -166,3 +166,115 @@ def mutation_ops(rng, sh, n, k, p_bad=0.0, removed_texts=None):
             ops.append({"op": "add", "line": ln, "as": rng.choice(["str", "str", "obj"])})
             sh.note(ln)
     return ops
+
+
+# ------------------------------------------------------------------ bad calls (§4.3)
+def bad_op(rng, sh, k, corrupt_fn=None):
+    """-> (kind, [ops]) : a call the catalogue expects to fail (or to be a documented no-op)."""
+    kind, ops = _bad_op(rng, sh, k, corrupt_fn)
+    return kind, (ops if isinstance(ops, list) else [ops])
+
+
+def _bad_op(rng, sh, k, corrupt_fn=None):
+    ids = sh.ids()
+    segs = sh.ids(["S"])
+    v = sh.version
+    kinds = ["dup_id", "dup_id_other", "other_version", "hdr_vn", "hdr_mixed", "malformed",
+             "rename_used", "rm_unknown", "set_ref_field", "bad_tagname", "empty", "blank",
+             "dup_link", "grp_clash", "grp_tag_conflict", "readd_connected", "bad_value"]
+    kind = rng.choice(kinds)
+    tags = gen_tags(rng, k)
+    if kind == "dup_id" and ids:
+        nm = rng.choice(ids)
+        rt = sh.named[nm]
+        return kind, {"op": "add", "line": _line_named(rng, sh, rt, nm, tags), "as": rng.choice(["str", "obj"])}
+    if kind == "dup_id_other" and ids:
+        nm = rng.choice(ids)
+        rts = ["S", "P", "Lid", "Cid"] if v == "gfa1" else ["S", "E", "G", "O", "U"]
+        rt = rng.choice([r for r in rts if r != sh.named[nm]])
+        return kind, {"op": "add", "line": _line_named(rng, sh, rt, nm, tags), "as": rng.choice(["str", "obj"])}
+    if kind == "other_version":
+        if v == "gfa1":
+            ln = rng.choice(["S\tzz1\t5\t*", "E\t*\tA+\tB-\t0\t1\t0\t1\t*", "G\t*\tA+\tB-\t5\t*",
+                             "U\tzz2\tA B", "O\tzz3\tA+ B-", "F\tA\tr+\t0\t1\t0\t1\t*", "X\tcustom"])
+        else:
+            ln = rng.choice(["S\tzz1\t*", "L\tA\t+\tB\t-\t*", "C\tA\t+\tB\t-\t0\t*", "P\tzz2\tA+,B-\t*"])
+        return kind, {"op": "add", "line": ln, "as": rng.choice(["str", "obj"])}
+    if kind == "hdr_vn":
+        return kind, {"op": "add", "line": "H\tVN:Z:%s" % rng.choice(["1.0", "2.0", "3.0", "x"]), "as": "str"}
+    if kind == "hdr_mixed":
+        return kind, {"op": "add", "line": "H\tzq:i:5\tVN:Z:%s\tTS:i:%d" %
+                      (rng.choice(["1.0", "2.0", "9"]), rng.randint(1, 3)), "as": "str"}
+    if kind == "malformed" and sh.texts and corrupt_fn:
+        _kk, t = corrupt_fn(rng, rng.choice(sh.texts))
+        return kind, {"op": "add", "line": t, "as": "str"}
+    if kind == "rename_used" and len(ids) >= 2:
+        a, b = rng.sample(ids, 2)
+        return kind, {"op": "rename", "id": a, "new": b}
+    if kind == "rm_unknown":
+        return kind, {"op": "rm", "id": rng.choice(["nope", "*", "", "zz zz"]), "how": "rm"}
+    if kind == "set_ref_field" and (sh.anon or ids):
+        if v == "gfa1":
+            fld = rng.choice(["from_segment", "to_segment", "from_orient", "to_orient", "overlap", "segment_names"])
+        else:
+            fld = rng.choice(["sid1", "sid2", "beg1", "end1", "items", "sid", "beg2"])
+        tgt = {"text": rng.choice(sh.anon)} if (sh.anon and rng.random() < 0.5) else {"id": rng.choice(ids or ["x"])}
+        op = {"op": "set_field", "field": fld, "value": rng.choice(["A", "+", "-", "*", "3M", "A+", "0"])}
+        op.update(tgt)
+        return kind, op
+    if kind == "bad_tagname" and (ids or sh.anon):
+        op = {"op": "set_tag", "tag": rng.choice(["x", "xyz", "1a", "a-", "", "a b"]), "value": 1}
+        op.update({"id": rng.choice(ids)} if ids else {"text": rng.choice(sh.anon)})
+        return kind, op
+    if kind == "empty":
+        return kind, {"op": "add", "line": "", "as": "str"}
+    if kind == "blank":
+        return kind, {"op": "add", "line": rng.choice([" ", "\t", " \t"]), "as": "str"}
+    if kind == "dup_link" and v == "gfa1":
+        links = [t for t in sh.anon if t.startswith("L\t")]
+        if links:
+            return kind, {"op": "add", "line": rng.choice(links), "as": rng.choice(["str", "obj"])}
+    if kind == "grp_clash" and v == "gfa2":
+        o, u = sh.ids(["O"]), sh.ids(["U"])
+        if o and rng.random() < 0.5:
+            return kind, {"op": "add", "line": "U\t%s\t%s" % (rng.choice(o), rng.choice(segs or ["q"])), "as": "str"}
+        if u:
+            return kind, {"op": "add", "line": "O\t%s\t%s+" % (rng.choice(u), rng.choice(segs or ["q"])), "as": "str"}
+    if kind == "grp_tag_conflict" and v == "gfa2":
+        grp = sh.ids(["O", "U"])
+        if grp:
+            nm = rng.choice(grp)
+            rt = sh.named[nm]
+            item = rng.choice(segs or ["q"]) + ("+" if rt == "O" else "")
+            return kind, [{"op": "set_tag", "id": nm, "tag": "zc", "value": 1},
+                          {"op": "add", "line": "%s\t%s\t%s\tzc:i:2" % (rt, nm, item), "as": "str"}]
+    if kind == "readd_connected" and ids:
+        return kind, {"op": "readd_connected", "id": rng.choice(ids)}
+    if kind == "bad_value" and ids:
+        nm = rng.choice(ids)
+        tg = rng.choice(["xa", "zz"])
+        return kind, [{"op": "set_datatype", "id": nm, "tag": tg, "dtype": rng.choice(["i", "H", "B", "A", "f", "J"])},
+                      {"op": "set_tag", "id": nm, "tag": tg, "value": rng.choice(["a b", "zz", "[1", "xy", "1,2"])}]
+    return "rm_unknown", {"op": "rm", "id": "nope", "how": "rm"}
+
+
+def _line_named(rng, sh, rt, nm, tags):
+    segs = sh.ids(["S"]) or ["q1"]
+    s = lambda: rng.choice(segs)
+    if sh.version == "gfa1":
+        if rt == "S":
+            return "\t".join(["S", nm, "*"] + tags)
+        if rt == "P":
+            return "\t".join(["P", nm, s() + "+", "*"] + tags)
+        if rt in ("L", "Lid"):
+            return "\t".join(["L", s(), rng.choice("+-"), s(), rng.choice("+-"), "7M", "ID:Z:" + nm] + tags)
+        return "\t".join(["C", s(), "+", s(), "-", "1", "*", "ID:Z:" + nm] + tags)
+    if rt == "S":
+        return "\t".join(["S", nm, "8", "*"] + tags)
+    if rt == "E":
+        return "\t".join(["E", nm, s() + "+", s() + "-", "0", "1", "0", "1", "*"] + tags)
+    if rt == "G":
+        return "\t".join(["G", nm, s() + "+", s() + "-", "10", "*"] + tags)
+    if rt == "O":
+        return "\t".join(["O", nm, s() + "+"] + tags)
+    return "\t".join(["U", nm, s()] + tags)
